@@ -203,6 +203,13 @@ func c09Workload(c *evid.Ctx, seed int64) {
 	rng := rand.New(rand.NewSource(seed))
 	seg := []int{256, 400, 512, 1024, 4096, 16384}[rng.Intn(6)]
 	real := rng.Intn(8) == 0
+	// large geometry (1 in 20): 4 MiB segments, entries of tens of KiB, batches whose staged
+	// bytes pass 64 KiB and 1 MiB - the commit buffer is grown, and may be handled differently
+	large := seed%20 == 7
+	if large {
+		seg = 4 << 20
+		c.Count("large_geometry_workloads", 1)
+	}
 	// on simfs, now and then a call's first write fails (nothing reaches the file): the call
 	// returns an error, is not acknowledged, and must leave no trace in the framing of later batches
 	fault := &c09FailNextWrite{}
@@ -284,6 +291,9 @@ func c09Workload(c *evid.Ctx, seed int64) {
 	var ops []string
 	start := []uint64{1, 1, 2, 77, 1 << 33}[rng.Intn(5)]
 	nops := 10 + rng.Intn(30)
+	if large {
+		nops = 8 + rng.Intn(8)
+	}
 	for i := 0; i < nops; i++ {
 		x := rng.Intn(100)
 		switch {
@@ -297,12 +307,21 @@ func c09Workload(c *evid.Ctx, seed int64) {
 				start = next
 			}
 			k := 1 + rng.Intn(4)
+			if large {
+				k = []int{1, 3, 12, 30, 45}[rng.Intn(5)]
+			}
 			var logs []*raft.Log
 			var bt fmtspec.Batch
 			for j := 0; j < k; j++ {
 				sz := rng.Intn(70)
 				if rng.Intn(10) == 0 {
 					sz = seg/2 + rng.Intn(seg)
+				}
+				if large {
+					sz = []int{50, 9 << 10, 40 << 10, 40<<10 + 3, 70 << 10}[rng.Intn(5)] + rng.Intn(8)
+					if k == 1 && rng.Intn(2) == 0 {
+						sz = 1<<20 + 1<<18 + rng.Intn(64)
+					}
 				}
 				lg := gen.Entry(rng, next+uint64(j), "f", sz)
 				logs = append(logs, lg)
